@@ -116,6 +116,7 @@ class CheckUnique(_Core):
 
         def reshape(I, failure_cases, ignore_na=True):
             cur().ghost["reported"] = failure_cases
+            cur().ghost["reported_ignoring_nulls"] = ignore_na
             return core.SAny(name="failure_cases")
 
         I.models[id(resolve_target(RESHAPE))] = reshape
@@ -131,6 +132,9 @@ class CheckUnique(_Core):
             dup = check_obj.duplicated(keep=keep)
             i = z3.Int(cur().fresh_name("row"))
             out["reported_rows_are_the_duplicates"] = SBool(rep.sel(i) == z3.And(check_obj.sel(i), core.as_z3_bool(dup.at(i))))
+            # a repeated null is a duplicate like any other (pandas `duplicated` counts it, the verdict counts it): it is reported too
+            # (reshape_failure_cases(ignore_na=True) drops failure cases whose value is null: its own contract, C02_reshape)
+            out["duplicated_nulls_are_reported_as_well"] = cur().ghost.get("reported_ignoring_nulls") is False
             out["failure_cases_only_when_failed"] = Not(passed)
         else:
             out["no_report_means_passed"] = py_eq(passed, True)
